@@ -42,6 +42,10 @@ type c16P struct {
 	// ForgedKnown: after the honest gossip, a signed header for an already known height, dated 3 h later, is
 	// delivered: it must be refused and must not move the tail
 	ForgedKnown bool `json:"forged_known,omitempty"`
+	// FailRanges: the first FailRanges range requests below the stored tail (moving the tail down) of every run fail (a getter within its contract: errors only
+	// delay). Start may fail with that error; whatever it returns, the store must stay one gap-free chain, and once
+	// the getter serves again a further Start has to succeed.
+	FailRanges int `json:"fail_ranges,omitempty"`
 }
 
 const c16Spacing = 6 * time.Second
@@ -152,6 +156,10 @@ func TestC16(t *testing.T) {
 			for _, w := range []int64{0, int64(337 * time.Hour)} {
 				mon.Emit(r, "tail", c16P{Chain: "regular", StoreLo: lo, StoreHi: lo + 100, Net: lo + 110, AgeS: 0, Gossip: 1, Cfgs: []c16Cfg{{WindowNs: w, FromH: fh, BTNs: int64(c16Spacing), TPNs: tps[1]}}}, "tail")
 				mon.Emit(r, "tail", c16P{Chain: "regular", StoreLo: lo, StoreHi: lo + 100, Net: lo + 110, AgeS: 0, Gossip: 1, Cfgs: []c16Cfg{{WindowNs: w, FromH: "mid", BTNs: int64(c16Spacing), TPNs: tps[1]}, {WindowNs: w, FromH: fh, BTNs: int64(c16Spacing), TPNs: tps[1]}}}, "tail")
+				// ... while the first one or two range requests of the run fail (the move is interrupted part-way)
+				for _, fr := range []int{1, 2} {
+					mon.Emit(r, "tail", c16P{Chain: "regular", StoreLo: lo, StoreHi: lo + 100, Net: lo + 110, AgeS: 0, Gossip: fr + 1, FailRanges: fr, Cfgs: []c16Cfg{{WindowNs: w, FromH: fh, BTNs: int64(c16Spacing), TPNs: tps[1]}, {WindowNs: w, FromH: "mid", BTNs: int64(c16Spacing), TPNs: tps[1]}, {WindowNs: w, FromH: fh, BTNs: int64(c16Spacing), TPNs: tps[1]}}}, "tail")
+				}
 			}
 		}
 	}
@@ -179,6 +187,11 @@ func TestC16(t *testing.T) {
 		p.AgeS = []int{0, 30, 600, 7200, 3 * 3600}[rng.Intn(5)]
 		for n := 1 + rng.Intn(r.N(3, 4)); n > 0; n-- {
 			p.Cfgs = append(p.Cfgs, pick())
+		}
+		if i%6 == 3 {
+			// failing range requests (not drawn from the PRNG: the other cases stay what they were)
+			p.FailRanges = 1 + i%2
+			p.Gossip = max(p.Gossip, p.FailRanges+1)
 		}
 		mon.Emit(r, "tail", p, "tail")
 	}
@@ -208,7 +221,17 @@ func c16Run(c *mon.Case, p c16P) {
 			}
 			return chain.At(h), nil, true
 		}
+		failRanges := 0
+		failBelow := uint64(0)
 		w.g.RangeFn = func(_ int, from H, to uint64) ([]H, error, bool) {
+			// only requests that fill in below the stored chain (the tail being moved down) are failed: the sync loop's
+			// catch-up requests above the head run concurrently with Start, and which of the two came first would
+			// depend on goroutine scheduling
+			if failRanges > 0 && from.Height() < failBelow {
+				failRanges--
+				c.Count("range_requests_failed_by_injection", 1)
+				return nil, fmt.Errorf("c16: range request failed"), true
+			}
 			out := chain.Range(from.Height()+1, min(to, tipNow()+1))
 			if len(out) == 0 {
 				return nil, fmt.Errorf("nothing above %d", from.Height()), true
@@ -308,7 +331,21 @@ func c16Run(c *mon.Case, p c16P) {
 				return
 			}
 			failNext = p.FailTailFetch
+			failRanges = p.FailRanges
+			failBelow = 0
+			if terr == nil {
+				failBelow = tail.Height()
+			}
 			err := w.start()
+			if err != nil && p.FailRanges > 0 && failRanges < p.FailRanges {
+				// injected range failures were consumed: an error is acceptable, a gap in the store is not
+				c.Count("starts_failed_by_injected_range_error", 1)
+				shape += "/retry-after-range-error"
+				w.settle() // the forced append of the new tail is queued for the store's flush loop: let it land
+				w.storeCheck("structure-after-start-failed-by-range-error")
+				failRanges = 0
+				err = w.start()
+			}
 			if err != nil && p.FailTailFetch && !failNext {
 				// the injected failure was consumed: an error is the right answer; the next attempt has to work
 				c.Count("starts_failed_by_injected_getter_error", 1)
